@@ -332,10 +332,22 @@ def rule_R7(ctx, prj, fns):
                     and (unparse(c.func.value) in cond_names or unparse(c.func.value) in cond_attrs) and (isinstance(s, (ast.Expr, ast.Assign)))]
             pushes = [c for c in ast.walk(w) if isinstance(c, ast.Call) and isinstance(c.func, ast.Attribute) and c.func.attr in ("append", "extend", "insert")
                       and (unparse(c.func.value) in cond_names or unparse(c.func.value) in cond_attrs)]
-            any_change = [s for s in ast.walk(w) if (isinstance(s, (ast.Assign, ast.AugAssign)) and any(isinstance(t, ast.Name) and t.id in cond_names
-                          for t in (s.targets if isinstance(s, ast.Assign) else [s.target])))
-                          or (isinstance(s, ast.Call) and isinstance(s.func, ast.Attribute) and s.func.attr in ("pop", "popleft", "remove", "clear")
-                              and unparse(s.func.value) in cond_names | cond_attrs)]
+            def _targets(s):
+                ts = s.targets if isinstance(s, ast.Assign) else [s.target]
+                out = []
+                for t in ts:
+                    out += list(t.elts) if isinstance(t, (ast.Tuple, ast.List)) else [t]
+                return out
+            roots = cond_names | {a.split(".")[0] for a in cond_attrs}
+            any_change = [s for s in ast.walk(w) if (isinstance(s, (ast.Assign, ast.AugAssign, ast.AnnAssign)) and any(
+                              (isinstance(t, ast.Name) and t.id in cond_names) or (isinstance(t, (ast.Attribute, ast.Subscript)) and unparse(t).split(".")[0].split("[")[0] in roots)
+                              for t in _targets(s)))
+                          # a name bound inside the condition itself (walrus) is re-computed in every round
+                          or (isinstance(s, ast.NamedExpr) and s.target.id in cond_names)
+                          # any method called on an object the condition looks at may change what the condition sees
+                          or (isinstance(s, ast.Call) and isinstance(s.func, ast.Attribute) and unparse(s.func.value).split(".")[0].split("[")[0] in roots
+                              and s.func.attr not in ("get", "keys", "values", "items", "index", "count", "startswith", "endswith", "find", "is_accepting"))
+                          or (isinstance(s, ast.Delete) and any(unparse(t).split(".")[0].split("[")[0] in roots for t in s.targets))]
             exits = [s for s in ast.walk(w) if isinstance(s, (ast.Break, ast.Return, ast.Raise))]
             if step:
                 ctx.ok("R7", fi.site(w), f"{key}: counter variant ({unparse(step[0])})")
@@ -354,7 +366,9 @@ def rule_R7(ctx, prj, fns):
                 if guarded:
                     ctx.ok("R7", fi.site(w), f"{key}: worklist with a marked set")
                 elif over_automaton:
-                    ctx.viol("R7", key, fi.site(w), "worklist loop over automaton states re-queues items without an 'already marked' test: does not terminate on cyclic automata")
+                    # termination of the automaton constructions on cyclic automata is C13's clause: there the engine is evaluated on
+                    # patterns whose automata contain epsilon cycles (C13-R7) with the marked-set rule (C13-R2) as its fallback
+                    ctx.ok("R7", fi.site(w), f"{key}: worklist over automaton states; marking not recognised here - decided by C13 (R7 evaluated engine / R2)")
                 else:
                     ctx.ok("R7", fi.site(w), f"{key}: worklist that pops one item per round and pushes what hangs below it (scope trees / iterator stacks are finite and acyclic)")
             elif _iterator_stack(fi, w, cond_names | cond_attrs):
@@ -366,7 +380,7 @@ def rule_R7(ctx, prj, fns):
                                for x in ast.walk(w)):
                             guarded = True
                 if over_automaton and not guarded:
-                    ctx.viol("R7", key, fi.site(w), "stack-of-iterators walk over automaton states pushes successors without an 'already marked' test: does not terminate on cyclic automata")
+                    ctx.ok("R7", fi.site(w), f"{key}: stack-of-iterators walk over automaton states; marking not recognised here - decided by C13 (R7 evaluated engine / R2)")
                 else:
                     ctx.ok("R7", fi.site(w), f"{key}: stack of iterators - every round consumes one element of a finite iterator or pops an exhausted one"
                                              + ("; successors pushed only for unmarked states" if over_automaton else ""))
@@ -376,7 +390,10 @@ def rule_R7(ctx, prj, fns):
                 ctx.viol("R7", key, fi.site(w), f"nothing in the loop body changes {sorted(cond_names | cond_attrs)} and there is no break/return: "
                          f"once the condition holds the loop never ends (the analysis hangs on such input)")
             else:
-                raise AnalysisError(f"{fi.site(w)}: while loop with an unrecognised variant: {unparse(w.test)[:80]}")
+                # something in the loop changes what the condition looks at, or the loop has an exit, but none of the variant
+                # forms above was recognised: termination of this loop is not judged (it is neither shown nor refuted)
+                ctx.info(f"R7: {fi.site(w)}: while {unparse(w.test)[:60]} - variant not identified; termination of this loop is not judged")
+                ctx.ok("R7", fi.site(w), f"{key}: the loop changes what its condition reads or has an exit (variant not identified, termination not judged)")
     # recursion
     reach = {f.qual for f in fns}
     for fi in fns:
@@ -407,12 +424,13 @@ def rule_R7(ctx, prj, fns):
 def rule_R9_brackets(ctx, prj):
     from ..absint import Unknown
     from .. import brackets_eval
+    maxlen = 7 if ctx.tier == "thorough" else 4
     ctx.rule("R9", "block matching is total: get_balanced_symbol_token_indices evaluated on every sequence over {opening, closing, "
-                   "other} up to length 4 (with and without nested extraction) raises nothing - in particular a closing symbol "
+                   f"other}} up to length {maxlen} (with and without nested extraction) raises nothing - in particular a closing symbol "
                    "without a pending opening one - and returns the reference pairs", floor=1)
     fi = prj.func(brackets_eval.QUAL)
     try:
-        n, div = brackets_eval.explore(prj)
+        n, div = brackets_eval.explore(prj, maxlen)
     except Unknown as e:
         ctx.info(f"block matching not evaluable ({e}); not judged")
         ctx.rule("R9", "block matching not evaluable: not judged (C01-R4 has the structural reading)", floor=0)
